@@ -23,12 +23,15 @@ def run(rep, tier):
         else:
             raise CheckError("TLC failed on OrderStatsProps:\n" + r.out[-3000:])
     # exhaustive part once, random part in several processes
-    plans = [(0, 3 if tier == "quick" else 4, 0)] + [(i, 0, 40 if tier == "quick" else 250) for i in range(1, 5 if tier == "quick" else 9)]
+    # (+ a sweep over list lengths of all integer percentages whose position is integral, shared between the random processes)
+    nr, top = (4, 200) if tier == "quick" else (8, 500)
+    plans = [(0, 3 if tier == "quick" else 4, 0, 1, 0)] + [(i, 0, 40 if tier == "quick" else 250, 1 + (i - 1) * top // nr, i * top // nr)
+                                                             for i in range(1, nr + 1)]
 
     def drive(p):
-        i, maxlen, nrand = p
+        i, maxlen, nrand, lo, hi = p
         out = os.path.join(work, "stats_%d.ndjson" % i)
-        rc, o, _ = common.run([exe, out, str(common.seed() * 1000 + i), str(maxlen), str(nrand)], timeout=1500, check=False)
+        rc, o, _ = common.run([exe, out, str(common.seed() * 1000 + i), str(maxlen), str(nrand), str(lo), str(hi)], timeout=1500, check=False)
         return out, rc, o
 
     with ThreadPoolExecutor(8) as ex:
